@@ -214,4 +214,5 @@ func c19Extra(r *core.Run, pkg string) {
 	c19R9(r, pkg)
 	c19R10(r, pkg)
 	c19R11(r, pkg)
+	c19R12(r, pkg)
 }
